@@ -150,6 +150,8 @@ def concretise(rng, p, resp, kind=None):
         resp = kind or rng.choice(["substituted", "truncated", "extended"])
     if resp == "error":
         resp = rng.choice(["error", "error", "down"] + (["shortstream"] if ctlish else []))
+    if ctlish and resp == "empty" and rng.random() < 0.5:
+        return (p, "empty", "nosection")     # an empty delivery claimed without any payload section (SIZE 0 / no SIZE)
     if ctlish and resp in ("correct", "error", "empty", "truncated", "substituted", "extended") and rng.random() < 0.2:
         return (p, resp, "daemon")
     return (p, resp)
@@ -456,7 +458,16 @@ def run_c30(chk):
         keep = [ln for ln in pre if ":correct" in ln]
         rest = [ln for ln in pre if ":correct" not in ln]
         pre = keep[:3] + rng.sample(rest, min(len(rest), 14))
-    run_and_validate(chk, [("tlc-paths", tlc_lines), ("random-chains", rnd), ("overwrite-existing-destination", pre)], "inproc", design=design, shards=8 if thorough else 4)
+    # an endpoint that claims success for an EMPTY delivery without any payload section (SIZE 0 with / without STREAM:CLIENT, or no SIZE),
+    # for a manifest whose content is not empty; alone and followed by an honest path
+    nosec = []
+    for p in ("control", "fallback", "local"):
+        for v in range(3):
+            nosec.append(case_line(cid, [(p, "empty", "nosection")], None, "file", rng.choice([5, 40, 70000]), v, "-", 1))
+            nosec.append(case_line(cid + 1, [(p, "empty", "nosection"), ("transport", "correct")], b"n.bin", "dir", 40, v, "-", 1))
+            cid += 2
+    run_and_validate(chk, [("tlc-paths", tlc_lines), ("random-chains", rnd), ("overwrite-existing-destination", pre), ("empty-delivery-without-a-payload-section", nosec)],
+                     "inproc", design=design, shards=8 if thorough else 4)
     if thorough:
         exe = build("ephcli")
         sub = rng.sample(tlc_lines, min(len(tlc_lines), 240)) + rng.sample(rnd, min(len(rnd), 60))
